@@ -153,9 +153,9 @@ func runParScheduled(f string, size uint64, n int, p chunkParams, rng *rand.Rand
 			return parArrival{}, false
 		}
 	}
-	parked := map[int]bool{}  // actors waiting in a hook
-	gone := map[int]bool{}    // workers whose goroutine has ended
-	count := make([]int, nw)  // simulated bucket sizes
+	parked := map[int]bool{} // actors waiting in a hook
+	gone := map[int]bool{}   // workers whose goroutine has ended
+	count := make([]int, nw) // simulated bucket sizes
 	closed := make([]bool, nw)
 	mainAt := 0
 	note := func(a parArrival) {
